@@ -87,7 +87,12 @@ def cli_targets(R, rng, tier):
             "pkg/_private/d.py": "import subprocess\nsubprocess.call(x, shell=True)  # nosec\n", "__pycache__x/e.py": "assert e\n", "_top.py": "assert t  # nosec\nx = 1\n",
             "__init__.py": "import telnetlib\n", "pkg/zz_py2.py": "print 'python 2'\nx = 1\ny = 2\n",
             # findings first, then an expression nested deeper than the visitor can follow: the visit aborts half way
-            "pkg/zz_deep.py": "import pickle\nassert zz_q\nzz_v = " + " + ".join(["1"] * 1500) + "\nexec(zz_e)\n"}
+            "pkg/zz_deep.py": "import pickle\nassert zz_q\nzz_v = " + " + ".join(["1"] * 1500) + "\nexec(zz_e)\n",
+            # withheld findings, then the visit aborts; the next file scanned has no nosec comment at all
+            "pkg/zz_deep_nosec.py": "assert zz_a  # nosec\nexec(zz_b)  # nosec B102\nzz_v = " + " + ".join(["1"] * 1500) + "\n",
+            "pkg/zz_plain_after.py": "assert zz_c\n",
+            # findings attached to an async definition itself
+            "pkg/zz_async.py": "import ssl\nasync def zz_co(zz_u, password='hunter2', zz_v=ssl.PROTOCOL_SSLv3):\n    assert zz_u\n"}
     for f, src in srcs.items():
         open(os.path.join(d, f), "w").write(src)
     target_sets = [["-r", "_vendor"], ["-r", "_vendor", "pkg"], ["-r", "./_vendor"], ["-r", "."], ["_top.py", "__init__.py"], ["-r", "pkg", "_top.py"],
@@ -123,6 +128,14 @@ def cli_targets(R, rng, tier):
                     if blk.get("%s.%s" % (crit, rk), 0) != n:
                         R.violations.append({"what": "metrics of %s: %s.%s=%s but the report lists %d such findings in that file (targets %s)" % (
                             fn, crit, rk, blk.get("%s.%s" % (crit, rk)), n, ts), "input": {"targets": ts}, "observed": blk, "signature": None})
+        for fn, blk in files.items():
+            try:
+                text = open(os.path.join(d, fn) if not os.path.isabs(fn) else fn).read()
+            except OSError:
+                continue
+            if "nosec" not in text and (blk.get("nosec", 0) or blk.get("skipped_tests", 0)):
+                R.violations.append({"what": "metrics of %s, a file without any nosec comment: nosec=%s skipped_tests=%s (targets %s)" % (
+                    fn, blk.get("nosec"), blk.get("skipped_tests"), ts), "input": {"targets": ts}, "observed": blk, "signature": None})
         for x in j["results"]:
             if x["filename"] not in files:
                 R.violations.append({"what": "a finding is reported in %s, which has no metrics block (targets %s)" % (x["filename"], ts),
